@@ -54,7 +54,7 @@ def repo_hook_commits():
     return [l.split()[0] for l in out.splitlines() if "verif hook" in l]
 m = {
  "version": 1,
- "setup_cmd": "cd /verif/harness && CARGO_NET_OFFLINE=true cargo build --release --bin verif && CARGO_NET_OFFLINE=true cargo build --profile checked --bin verif && ./target/release/verif golden",
+ "setup_cmd": "cd /verif/harness && CARGO_NET_OFFLINE=true cargo build --release --bin verif && CARGO_NET_OFFLINE=true cargo build --profile checked --bin verif && ./target/release/verif selftest --fast",
  "hooks": {
    "guard": "rand_distr_verif",
    "enable": "rustc --cfg rand_distr_verif via /verif/harness/.cargo/config.toml [build] rustflags; the harness depends on rand_distr by path = /repo, so every check rebuilds the working tree with the hook on",
